@@ -6,7 +6,8 @@
 
 extern int mpt_qpush(MPT_STRUCT(queue) *queue, size_t len, const void *data)
 {
-	int ret;
+	/* number of remaining elements may exceed integer range */
+	ssize_t ret;
 	if ((ret = mpt_qpost(queue, len)) < 0) {
 		return ret;
 	}
